@@ -92,6 +92,13 @@ func runOne(prop string, pd *propDef, seed uint64, idx int64, tier string, sc *S
 		o.Verdict = "ok"
 	}
 	o.Nontrivial = rd.Res.Switches > 0 && len(rd.Recs) > 0
+	if rd.Checked > 0 || rd.Inconclusive > 0 {
+		if o.Probes == nil {
+			o.Probes = map[string]int{}
+		}
+		o.Probes["histories.checked"] = rd.Checked
+		o.Probes["histories.inconclusive"] = rd.Inconclusive
+	}
 	return o, rd
 }
 
